@@ -35,15 +35,24 @@ def gen_case(rng, quick):
         need = w - len(first) - 1
         if need >= 1:
             words[1] = "a" * need
-    return {"words": words, "width": w, "indentation": ind, "depth": depth}
+    case = {"words": words, "width": w, "indentation": ind, "depth": depth}
+    # un-reduced source text: whitespace before/after the words and longer runs between them
+    if rng.random() < 0.35:
+        case["lead"] = rng.choice([" ", "  ", "\n", "\n   "])
+    if rng.random() < 0.25:
+        case["trail"] = rng.choice([" ", "  ", "\n"])
+    if rng.random() < 0.15:
+        case["sep"] = rng.choice(["  ", "\n", " \t "])
+    return case
 
 
 def doc_for(case):
-    text = " ".join(case["words"])
+    """-> (xml, the escaped single-spaced words = what must be distributed over the text lines)"""
+    text = case.get("lead", "") + case.get("sep", " ").join(case["words"]) + case.get("trail", "")
     xml = "<p>%s</p>" % esc_text(text)
     for i in range(case["depth"]):
         xml = "<d%d>%s</d%d>" % (i, xml, i)
-    return xml, esc_text(text)
+    return xml, esc_text(" ".join(case["words"]))
 
 
 def run_impl(case):
@@ -59,7 +68,7 @@ def text_lines(out, case, escaped):
     """-> ('oneline', None) | ('lines', [raw lines between <p> and </p>]) | ('shape', msg)"""
     ind, d = case["indentation"], case["depth"]
     lines = out.split("\n")
-    if ("<p>" + escaped + "</p>") in out:
+    if any(("<p>" + a + escaped + b + "</p>") in out for a in ("", " ") for b in ("", " ")):
         return "oneline", None       # the whole element fitted on a line (possibly together with its ancestors' tags)
     try:
         a = lines.index(ind * d + "<p>")
@@ -159,7 +168,8 @@ def run(ctx, args):
         with open(args.replay) as f:
             rep = json.load(f)
         if rep.get("case"):
-            check_cases(ctx, [{k: rep["case"][k] for k in ("words", "width", "indentation", "depth")}])
+            check_cases(ctx, [{k: rep["case"][k] for k in ("words", "width", "indentation", "depth", "lead", "trail", "sep")
+                               if k in rep["case"]}])
         return ctx.finish("replay of " + args.replay, replay_open=replay_open)
     quick = ctx.tier == "quick"
     cases = []
@@ -176,7 +186,8 @@ def run(ctx, args):
     return ctx.finish(
         rule="text-only element <p> at depth 0-3 holding words joined by single spaces; word lengths biased to width-2..width+2, "
              "unbreakable words, prefixes ending exactly at the width; characters incl. & < (escaped) and non-ASCII; widths 1-12 "
-             "(thorough: up to 40), five indentation strings; plus all word-length pairs/triples for widths 1-5. Non-trivial = more "
+             "(thorough: up to 40), five indentation strings; source text optionally with leading/trailing whitespace and longer "
+             "whitespace runs between the words; plus all word-length pairs/triples for widths 1-5. Non-trivial = more "
              "than one text line; distinct by (words, width, indentation, depth).",
         replay_open=replay_open)
 
